@@ -151,11 +151,16 @@ fn native_callback_trampoline(
         &mut error_out,
     );
 
-    // Clean up argument handles
+    // Clean up argument handles. A callback may hand back one of the handles it was given
+    // (`return args[0];`): that one is consumed as the result below, not freed here as well.
     unsafe {
-        drop(Box::from_raw(this_handle));
+        if this_handle != result {
+            drop(Box::from_raw(this_handle));
+        }
         for handle in arg_handles {
-            drop(Box::from_raw(handle));
+            if handle != result {
+                drop(Box::from_raw(handle));
+            }
         }
     }
 
